@@ -197,6 +197,8 @@ func runC19(c *Ctx) {
 	sort.Slice(structs, func(i, j int) bool { return structs[i].Obj().Name() < structs[j].Obj().Name() })
 
 	uss := p.Func("ast.UnmarshalSelectionSet")
+	analysed := map[*ssa.Function]bool{}
+	defer func() { c19Extra(c, structs, seen, analysed) }()
 	for _, s := range structs {
 		st := s.Underlying().(*types.Struct)
 		ks, _ := jsonKeys(st)
@@ -219,6 +221,7 @@ func runC19(c *Ctx) {
 		if s.Obj().Pkg() != astPkg.Types {
 			continue
 		}
+		analysed[dec] = true
 		// field writes in the decoder: FieldAddr on the receiver
 		recv := dec.Params[0]
 		writes := map[string][]*ssa.FieldAddr{}
@@ -511,7 +514,7 @@ func c19Discriminator(c *Ctx, r *RuleResult, fn *ssa.Function, kinds []*types.Na
 		mi   *ssa.MakeInterface
 	}
 	var sites []site
-	for _, f := range withClosures(fn) {
+	for _, f := range c19Helpers(p, fn) {
 		allInstrs(f, func(in ssa.Instruction) {
 			mi, ok := in.(*ssa.MakeInterface)
 			if !ok {
@@ -560,6 +563,9 @@ func c19Discriminator(c *Ctx, r *RuleResult, fn *ssa.Function, kinds []*types.Na
 	for _, s := range sites {
 		produced[s.kind] = true
 		conds := condsAt(s.mi.Block())
+		if len(sites) > 0 && s.mi.Parent() != fn && len(condsAt(s.mi.Block())) == 0 && len(s.mi.Parent().Blocks) > 1 {
+			// a helper with branching but no dominating condition for this site: nothing to evaluate
+		}
 		for _, b := range kinds {
 			all := triT
 			var desc []string
@@ -625,4 +631,109 @@ func containsIface(t types.Type, sel *types.Named, seen map[types.Type]bool) boo
 		return true
 	}
 	return false
+}
+
+// c19Helpers returns fn, its closures, and the non-method functions of package ast it statically calls (transitively).
+func c19Helpers(p *Program, fn *ssa.Function) []*ssa.Function {
+	seen := map[*ssa.Function]bool{}
+	var out []*ssa.Function
+	var visit func(f *ssa.Function)
+	visit = func(f *ssa.Function) {
+		if f == nil || seen[f] || len(f.Blocks) == 0 {
+			return
+		}
+		seen[f] = true
+		out = append(out, f)
+		for _, a := range f.AnonFuncs {
+			visit(a)
+		}
+		allInstrs(f, func(in ssa.Instruction) {
+			if c, ok := in.(ssa.CallInstruction); ok {
+				g := c.Common().StaticCallee()
+				if g != nil && g.Pkg == fn.Pkg && g.Signature.Recv() == nil {
+					visit(g)
+				}
+			}
+		})
+	}
+	visit(fn)
+	return out
+}
+
+// c19Extra: R5 (decoding reads and writes no mutable package-level state) and R6 (no un-analysed custom encoder/decoder on a JSON-reachable type).
+func c19Extra(c *Ctx, structs []*types.Named, reach map[types.Type]bool, analysed map[*ssa.Function]bool) {
+	p := c.P
+	r5 := c.Rule("R5", "the decoders are functions of their input: no function reachable from UnmarshalSelectionSet or a custom decoder inside the module touches a package-level variable", 5)
+	var roots []*ssa.Function
+	for f := range analysed {
+		roots = append(roots, f)
+	}
+	if f := p.Func("ast.UnmarshalSelectionSet"); f != nil {
+		roots = append(roots, f)
+	}
+	for f := range p.reachableFrom(roots, nil) {
+		if !p.inModule(f) {
+			continue
+		}
+		bad := false
+		allInstrs(f, func(in ssa.Instruction) {
+			for _, op := range in.Operands(nil) {
+				if g, ok := (*op).(*ssa.Global); ok && g.Pkg != nil && strings.HasPrefix(g.Pkg.Pkg.Path(), modPath) {
+					if isErrorSentinel(g) {
+						continue
+					}
+					bad = true
+					r5.Fail(in.Pos(), p.FuncName(f), "global "+g.Name(), fmt.Sprintf("decoding touches package-level variable %s: the result (or a later decode) can depend on earlier or concurrent decodes", g.Name()))
+				}
+			}
+		})
+		if !bad {
+			r5.OK(p.FuncName(f), "no package-level state")
+		}
+	}
+	r6 := c.Rule("R6", "no JSON-reachable type has a custom encoder or decoder other than the analysed ones (their encodings would not be the field/tag-derived ones the other rules compute)", 20)
+	for t := range reach {
+		n, ok := t.(*types.Named)
+		if !ok {
+			continue
+		}
+		for _, m := range []string{"MarshalJSON", "UnmarshalJSON", "MarshalText", "UnmarshalText"} {
+			if !hasMethod(n, m) {
+				r6.OK(n.Obj().Name()+"."+m, "absent")
+				continue
+			}
+			f := p.Func("ast.(*" + n.Obj().Name() + ")." + m)
+			if f != nil && analysed[f] {
+				r6.OK(n.Obj().Name()+"."+m, "analysed by R2/R3")
+				continue
+			}
+			r6.Undecided(n.Obj().Pos(), n.Obj().Name(), m, fmt.Sprintf("%s has a custom %s: its JSON form is not the one derived from fields and tags, and whether decode(encode(x)) = x for it is not decided", n.Obj().Name(), m))
+		}
+	}
+}
+
+func isErrorSentinel(g *ssa.Global) bool {
+	// package-level error values that are only read are harmless; writes are caught because a Store operand is the global too
+	t := g.Type().(*types.Pointer).Elem()
+	if !types.Identical(t, types.Universe.Lookup("error").Type()) {
+		return false
+	}
+	for _, fn := range g.Pkg.Members {
+		f, ok := fn.(*ssa.Function)
+		if !ok || f.Name() == "init" {
+			continue
+		}
+		w := false
+		for _, ff := range withClosures(f) {
+			allInstrs(ff, func(in ssa.Instruction) {
+				if s, ok := in.(*ssa.Store); ok && s.Addr == ssa.Value(g) {
+					w = true
+				}
+			})
+		}
+		if w {
+			return false
+		}
+	}
+	return true
 }
